@@ -8,6 +8,12 @@ PINS = {
     "CxxParser._parse_template_decl": "f46e0092f86b7aa94d87a1c8",
     "CxxParser._parse_template_type_parameter": "e51bf6a8c1cac0e0240197dd",
     "ParsedTypeModifiers.validate": "8ec39aba017329b5f75b6f68",
+    "CxxParser._parse_using": "b98d7e9db9a2a3acc517b93d",
+    "CxxParser._parse_using_directive": "9e127026cb54be59b0167599",
+    "CxxParser._parse_using_declaration": "02fd75051b83a579636938bf",
+    "CxxParser._parse_using_typealias": "24a311bd98b144cb428f7211",
+    "CxxParser._consume_attribute_specifier_seq": "99384e37275aa424cee9d8af",
+    "CxxParser._parse_enum_decl": "cae90347986351cf20f9164d",
 }
 
 
